@@ -123,7 +123,16 @@ class FakeFS:
 
         class R:
             def readlines(self_):
-                return data.splitlines(True)
+                # a text file ends lines at '\n' only (not at FF, LS, GS ... as str.splitlines does)
+                out, cur = [], ""
+                for ch in data:
+                    cur += ch
+                    if ch == "\n":
+                        out.append(cur)
+                        cur = ""
+                if cur:
+                    out.append(cur)
+                return out
 
             def read(self_):
                 return data
@@ -161,6 +170,9 @@ class FakeOS:
         self.unlink = fs.unlink
         self.path = self
 
+    def close(self, handle):
+        return None
+
     def exists(self, a):
         return self._fs.exists(a)
 
@@ -184,6 +196,59 @@ class FakeRepo:
             raise IOError("404 " + url)
         f = PyFile("".join(self.objects[url]).encode("utf-8"))
         return f
+
+
+class FakeTransport:
+    """Stands for tempfile.mkstemp + urllib.request.urlretrieve + gzip.open as used by the real
+    download_gunzip_lines: the 'downloaded file' is kept in the FakeFS, reading it back as text
+    yields the published lines (a text file splits lines at '\\n' only)."""
+
+    def __init__(self, repo, fs):
+        self.repo, self.fs, self.n = repo, fs, 0
+
+    def mkstemp(self, *a, **k):
+        self.n += 1
+        name = "/tmp/fake-%d" % self.n
+        self.fs.files[name] = ""
+        return (1000 + self.n, name)
+
+    def urlretrieve(self, url, filename=None, *a, **k):
+        self.repo.requests.append(url)
+        if url not in self.repo.objects:
+            raise IOError("404 " + url)
+        self.fs.files[filename] = "".join(self.repo.objects[url])
+        return (filename, None)
+
+    def gzip_open(self, filename, mode="rt", *a, **k):
+        data = self.fs.files[filename]
+
+        class G:
+            def readlines(self_):
+                out, cur = [], ""
+                for ch in data:
+                    cur += ch
+                    if ch == "\n":
+                        out.append(cur)
+                        cur = ""
+                if cur:
+                    out.append(cur)
+                return out
+
+            def read(self_):
+                return data
+
+            def __iter__(self_):
+                return iter(self_.readlines())
+
+            def close(self_):
+                pass
+
+            def __enter__(self_):
+                return self_
+
+            def __exit__(self_, *a):
+                return False
+        return G()
 
 
 def digest_sha256(lines):
